@@ -10,8 +10,10 @@ layer checks in the order of the repaired Go code):
   link counts match, its keys are strictly ascending under the configured order and no key's
   layer is below the recorded height — contrapositive: every root that violates one of these
   is rejected; and the outcome is never a panic (`C19_never_panics`).
-The v1marshaler decoder (`encoding/json`) is not modelled: for that format the tie is the
-`badroots` family's outcome comparison against the harness's own restatement of the conditions.
+Both node formats: `checkTop` is parametric in the decoder — `decBinRaw` (codec.go) and
+`Json.decJson` (the canonical shape `encoding/json` writes for a node; what else `encoding/json`
+would accept — white space, other member orders, letter case — is outside the model and outside
+what the `badroots` family feeds it).
 -/
 namespace Mast.Loader
 
@@ -24,17 +26,17 @@ theorem C19_missing_top (fmt : String) (f : Fmt) (kk layer h desc)
   simp [loadMast, hf]
 
 /-- what acceptance of a binary top node guarantees -/
-structure GoodTop (kk : KeyKind) (layer : Nat → Nat) (height : Nat) (desc : Bool) (bytes : Bytes) : Prop where
-  decodes : ∃ raw keys, Codec.decBinRaw bytes = some raw ∧
+structure GoodTop (dec : Bytes → Option Codec.RawNode) (kk : KeyKind) (layer : Nat → Nat) (height : Nat) (desc : Bool) (bytes : Bytes) : Prop where
+  decodes : ∃ raw keys, dec bytes = some raw ∧
     raw.keys.mapM (fun b => b.bind (parseKey kk)) = some keys ∧
     keys.length = raw.vals.length ∧
     (if raw.links.length = 0 then keys.length + 1 else raw.links.length) = keys.length + 1 ∧
     ascending desc keys = true ∧ ∀ k ∈ keys, height ≤ layer k
 
-theorem C19_ok_implies_good (kk layer height desc bytes)
-    (h : checkTopBin kk layer height desc bytes = .ok) : GoodTop kk layer height desc bytes := by
-  unfold checkTopBin at h
-  cases hraw : Codec.decBinRaw bytes with
+theorem C19_ok_implies_good (dec kk layer height desc bytes)
+    (h : checkTop dec kk layer height desc bytes = .ok) : GoodTop dec kk layer height desc bytes := by
+  unfold checkTop at h
+  cases hraw : dec bytes with
   | none => simp [hraw] at h
   | some raw =>
     simp only [hraw] at h
@@ -73,11 +75,11 @@ theorem ite_err_ne_panic (c : Prop) [Decidable c] (x why : String) (o : Outcome)
   · simp
   · exact h
 
-theorem checkTopBin_no_panic (kk layer height desc bytes) :
-    ∀ why, checkTopBin kk layer height desc bytes ≠ .panic why := by
+theorem checkTop_no_panic (dec kk layer height desc bytes) :
+    ∀ why, checkTop dec kk layer height desc bytes ≠ .panic why := by
   intro why
-  unfold checkTopBin
-  cases Codec.decBinRaw bytes with
+  unfold checkTop
+  cases dec bytes with
   | none => simp
   | some raw =>
     simp only []
@@ -106,24 +108,35 @@ theorem C19_never_panics (fmt kk layer h desc link top) :
       | none => simp
       | some bytes =>
         cases f with
-        | bin => exact checkTopBin_no_panic kk layer h desc bytes why
-        | json => simp
+        | bin => exact checkTop_no_panic _ kk layer h desc bytes why
+        | json => exact checkTop_no_panic _ kk layer h desc bytes why
 
 /-- rejection, in the direction the property states it -/
 theorem C19_rejects_bad_binary_top (kk layer height desc bytes)
-    (hbad : ¬ GoodTop kk layer height desc bytes) :
+    (hbad : ¬ GoodTop Codec.decBinRaw kk layer height desc bytes) :
     ∃ why, loadMast "v1.1.5binary" kk layer height desc true (some bytes) = .err why := by
   have hk : knownFormat "v1.1.5binary" = some Fmt.bin := by decide
   simp only [loadMast, hk]
   cases hc : checkTopBin kk layer height desc bytes with
-  | ok => exact absurd (C19_ok_implies_good kk layer height desc bytes hc) hbad
+  | ok => exact absurd (C19_ok_implies_good _ kk layer height desc bytes hc) hbad
   | err why => exact ⟨why, by simp⟩
   | panic why =>
     exfalso
     have := C19_never_panics "v1.1.5binary" kk layer height desc true (some bytes) why
     simp [loadMast, hk, hc] at this
 
+/-- the same for the v1marshaler format (for either name of it) -/
+theorem C19_rejects_bad_json_top (fmt : String) (hf : knownFormat fmt = some Fmt.json) (kk layer height desc bytes)
+    (hbad : ¬ GoodTop Json.decJson kk layer height desc bytes) :
+    ∃ why, loadMast fmt kk layer height desc true (some bytes) = .err why := by
+  simp only [loadMast, hf]
+  cases hc : checkTopJson kk layer height desc bytes with
+  | ok => exact absurd (C19_ok_implies_good _ kk layer height desc bytes hc) hbad
+  | err why => exact ⟨why, by simp [hc]⟩
+  | panic why => exact absurd hc (checkTop_no_panic _ kk layer height desc bytes why)
+
 end Mast.Loader
+#print axioms Mast.Loader.C19_rejects_bad_json_top
 #print axioms Mast.Loader.C19_unknown_format
 #print axioms Mast.Loader.C19_missing_top
 #print axioms Mast.Loader.C19_ok_implies_good
